@@ -3,7 +3,7 @@
    (Bio.SeqIO) and by BioCantor's three parser modes.
    model member = <<"gene", s, e, strand, symbol, locusTag, transcripts>> | <<"fc", s, e, strand, name, locusTag, features>>
    transcript = <<exonBlocks, cdsBlocks, kind, proteinId>>  kind in {"mRNA", "ncRNA", "tRNA", "rRNA", "misc_RNA"}
-   feature = <<blocks>> ; record = <<type, blocks, strand, gene, locusTag, proteinId>> *)
+   feature = <<blocks, featureId ( = none)>> ; record = <<type, blocks, strand, gene, locusTag, proteinId>> *)
 EXTENDS Naturals, Sequences, FiniteSets, Json, IOUtils, TLC
 Trace == ndJsonDeserialize(IOEnv.TRACE_FILE)
 Ok(b, name) == IF b THEN "ok" ELSE name
@@ -23,7 +23,7 @@ TxRecords(t, m, flavour) ==
 MemberRecords(m, flavour) ==
   IF m[1] = "gene" THEN <<<<"gene", <<<<m[2], m[3]>>>>, m[4], m[5], m[6], "">>>> \o Flat([i \in DOMAIN m[7] |-> TxRecords(m[7][i], m, flavour)])
   ELSE <<<<"misc_feature", <<<<m[2], m[3]>>>>, m[4], "", m[6], "">>>> \o      \* the collection name is written as /misc_feature
-       [i \in DOMAIN m[7] |-> <<"feat_interval", m[7][i][1], m[4], m[5], m[6], "">>]
+       [i \in DOMAIN m[7] |-> <<"feat_interval", m[7][i][1], m[4], m[5], m[6], m[7][i][2]>>]   \* ... and its own identifier
 ModelTypes == {"gene", "mRNA", "CDS", "ncRNA", "tRNA", "rRNA", "misc_RNA", "misc_feature", "feat_interval"}
 Expected(model, flavour) == Flat([i \in DOMAIN model |-> MemberRecords(model[i], flavour)])
 
